@@ -129,6 +129,11 @@ Definition read_http_request (q : rawreq) : option fedreq :=
   | _, _ => None
   end.
 
+(* json.Marshal(fields) copies the bytes of the body: it is valid UTF-8 iff the body is (the
+   string members go through the JSON encoder) *)
+Definition content_not_utf8 (c : option bytes) : bool :=
+  match c with Some raw => negb (utf8_valid raw) | None => false end.
+
 Section Crypto.
   Variables skT pkT sigT : Type.
   Variable sign : skT -> bytes -> sigT.
@@ -141,6 +146,7 @@ Section Crypto.
   Definition fr_sign (r : fedreq) (server keyid : bytes) (sk : skT) : option fedreq :=
     if negb (is_nil (f_origin r)) && negb (bytes_eqb (f_origin r) server) then None
     else if negb (forallb (fun kv => is_some (b64_decode (snd kv))) (f_sigs r)) then None
+    else if content_not_utf8 (f_content r) then None   (* SignJSON: the text to sign must be UTF-8 *)
     else
       match signing_bytes (f_content r) (f_dest r) (f_method r) server (f_uri r) with
       | None => None
@@ -203,10 +209,9 @@ Section Crypto.
                      else lookup_key store' server id
     end.
 
-  (* VerifyJSON for one key ID: every signature text must be base64, this one must have the
-     length of a signature and verify over the canonical bytes *)
+  (* VerifyJSON for one key ID: only that entry of the signatures is decoded; it must be base64,
+     have the length of a signature and verify over the canonical bytes *)
   Definition verify_json (msg : bytes) (sigs : list (bytes * bytes)) (id : bytes) (pk : pkT) : bool :=
-    if negb (forallb (fun kv => is_some (b64_decode (snd kv))) sigs) then false else
     match assoc_first id sigs with
     | None => false
     | Some s =>
